@@ -64,6 +64,8 @@ def check(case):
 
     r = operator.iadd(a, b)
     require(r is a, "iadd-not-self", f"a += b returned {type(r).__name__} which is not a")
+    walk.require_views(a, "a after a += b")
+    walk.require_views(ref, "a + b")
     d = norm.diff(dref, doc(a), norm.BITEXACT)
     require(not d, "iadd-differs-from-add", lambda: f"a += b vs a + b: {norm.fmt(d)}")
     d = norm.diff(db0, doc(b), norm.BITEXACT)
